@@ -174,6 +174,11 @@ fn handle(state: &Arc<Mutex<HttpState>>, mut stream: TcpStream) {
             m(&rec, &mut resp);
         }
     }
+    if resp.status == 0 {
+        // a mutator asked for a transport fault: the request has taken effect, the reply is lost
+        let _ = stream.shutdown(std::net::Shutdown::Both);
+        return;
+    }
     let mut out = format!("HTTP/1.1 {} {}\r\nConnection: close\r\nContent-Length: {}\r\n", resp.status, reason(resp.status), resp.body.len());
     for (k, v) in &resp.headers {
         out.push_str(&format!("{k}: {v}\r\n"));
